@@ -77,7 +77,7 @@ type scenario struct {
 
 type linkFault struct {
 	At   time.Duration
-	Kind int // 0 fin, 1 rst
+	Kind int // 0 fin, 1 rst, 2 slow write: the peer's window closes for a fraction of T3
 }
 
 type txInfo struct {
@@ -141,7 +141,7 @@ func genScenario(t *core.Tape, faulty bool) scenario {
 		for i := 0; i < nf; i++ {
 			sc.LinkFaults = append(sc.LinkFaults, linkFault{
 				At:   time.Duration(200+t.Choose("scn", 8000)) * time.Millisecond,
-				Kind: t.Choose("scn", 2),
+				Kind: t.Weighted("scn", 2, 2, 3),
 			})
 		}
 		if t.Choose("scn", 4) == 0 {
@@ -190,12 +190,21 @@ func Build(config string) core.BuildFunc {
 				if c == nil || !c.Alive() {
 					return
 				}
-				if lf.Kind == 0 {
+				switch lf.Kind {
+				case 0:
 					w.Fault("fin")
 					c.L.FIN()
-				} else {
+				case 1:
 					w.Fault("rst")
 					c.L.RST()
+				default:
+					// the library's writes stop draining for a while: a send spends a noticeable part of
+					// T3 queued on the write lock or inside the write before its primary is on the wire
+					d := sc.T3 / time.Duration(2+w.T.Choose("net", 3))
+					w.Fault("slow-write")
+					c.L.SetCap(24)
+					c.L.Stall(false, d)
+					w.After(d, "slow-write-end", func() { c.L.SetCap(1 << 20) })
 				}
 			})
 		}
@@ -488,7 +497,14 @@ func (h *harness) final(reason string) {
 			upd(at)
 		}
 		if h.closedAt > 0 && h.closedAt >= c.OpenedAt {
-			upd(h.closedAt)
+			t := h.closedAt
+			// A graceful Close first attempts the courtesy Separate, a write bounded by 500 ms; with the
+			// peer's window closed (slow-write fault) that write takes its full bound before the
+			// generation is torn down. The generation then ends when the library closes the socket.
+			if ca := c.L.A.ClosedAt; h.w.Faults["slow-write"] > 0 && ca > t && ca <= t+501*time.Millisecond {
+				t = ca
+			}
+			upd(t)
 		}
 
 		return end
@@ -577,7 +593,13 @@ func (h *harness) final(reason string) {
 			evs = append(evs, event{ge, "closed", nil})
 		}
 		if c.CtxAt >= 0 {
-			evs = append(evs, event{c.CtxAt, "ctx", nil})
+			// the write is not bound by the caller's context: a context that ends while the primary is
+			// still being written (peer window closed) is noticed when the write returns
+			at := c.CtxAt
+			if at < tw {
+				at = tw
+			}
+			evs = append(evs, event{at, "ctx", nil})
 		}
 		sort.SliceStable(evs, func(i, j int) bool { return evs[i].at < evs[j].at })
 		first := evs[0].at
